@@ -457,6 +457,22 @@ func (s *c18State) probeLocks() []string {
 	return held
 }
 
+func (s *c18State) monitorCount() int { return client.VerifMonitorCount(s.c) }
+
+// probeGate: with nothing in flight, a connected client that has a monitor must not hold updates back
+func (s *c18State) probeGate() (bool, int) {
+	q := 0
+	for i := 0; i < 200; i++ {
+		var d bool
+		d, q = client.VerifDeferState(s.c)
+		if !d || !s.c.Connected() || s.monitorCount() == 0 {
+			return false, 0
+		}
+		time.Sleep(5 * time.Millisecond)
+	}
+	return true, q
+}
+
 // settle waits until the client's background activity triggered by the last event (reconnect after a lost
 // connection, disconnect after a cache error) has died down: no new proxy message or connection for a few
 // milliseconds and no connect in progress. It only fixes which ordering a sequence explores (the other
@@ -655,6 +671,12 @@ func c18Run(r *ev.Run, x c18Session) (sawError bool) {
 	if held := s.probeLocks(); len(held) > 0 {
 		gs := clientGoroutines()
 		r.Violation("c18.lock-left-held."+strings.Join(held, "+")+".after-"+x.Seq[len(x.Seq)-1], fmt.Sprintf("[%s] with no call in flight these locks cannot be taken: %v", x, held), cse("locks held "+strings.Join(held, ","), gs))
+		return
+	}
+	// ... and reads must not be gated: connected, a monitor in place, no request in flight, yet updates held back means that
+	// Get/List wait for their whole context (for ever without a deadline) and that notifications are never applied
+	if gated, q := s.probeGate(); gated {
+		r.Violation("c18.reads-gated-with-nothing-in-flight.after-"+x.Seq[len(x.Seq)-1], fmt.Sprintf("[%s] with no call in flight, the client connected and %d monitor(s) registered, updates are still held back (deferUpdates=true, %d queued): Get and List wait until their context expires and notifications are never applied", x, s.monitorCount(), q), cse("reads gated", nil))
 		return
 	}
 	// and one more call of every kind completes
